@@ -34,7 +34,7 @@ FLAVOURS = {
 
 SAN_ENV = {
     "ASAN_OPTIONS": "abort_on_error=1:detect_leaks=0:halt_on_error=1:allocator_may_return_null=1:detect_stack_use_after_return=0",
-    "UBSAN_OPTIONS": "print_stacktrace=1:halt_on_error=1",
+    "UBSAN_OPTIONS": "print_stacktrace=1:halt_on_error=1:abort_on_error=1",
     "TSAN_OPTIONS": "halt_on_error=1:second_deadlock_stack=1",
 }
 
@@ -291,6 +291,7 @@ def sanitizer_key(err):
         return None
     kind = m.group(1)
     kind = re.sub(r"0x[0-9a-f]+", "ADDR", kind)
+    kind = re.sub(r"-?\d+", "N", kind)
     kind = re.sub(r"\s+", "_", kind.replace("ERROR: AddressSanitizer: ", "asan:")
                   .replace("WARNING: ThreadSanitizer: ", "tsan:").replace("runtime error: ", "ubsan:"))
     kind = re.sub(r"[^\w:.-]", "_", kind)[:80]
